@@ -1,10 +1,28 @@
 LEVEL = "model_checking"
+
+# every reset() builds a tracer (two zeroed 48 KiB tables): a small ASan quarantine recycles those pages
+# instead of faulting in fresh ones (cuts system time by 4x; detection of use-after-free inside one
+# history is unaffected: a history frees far less than 4 MiB)
+_ENV = {"ASAN_OPTIONS": "quarantine_size_mb=4"}
+
 HARNESSES = [
-    dict(name="traceseq", src=["traceseq.c"], variant="asan", deadline={"quick": 120, "thorough": 900},
-         # every reset() builds a tracer (2 x 48 KiB zeroed tables): a small ASan quarantine recycles those pages instead of faulting in fresh ones
-         env={"ASAN_OPTIONS": "quarantine_size_mb=4"}),
+    # sequential half of C17: all call histories on one thread
+    dict(name="traceseq", src=["traceseq.c"], variant="asan", deadline={"quick": 240, "thorough": 1500}, env=_ENV),
+    # same model on the Debug build (the library's own AWS_PRECONDITION / POSTCONDITION are live in the
+    # tracer's hash tables and in allocator.c), 3 slots
+    dict(name="traceseq-dbg", src=["traceseq.c"], variant="asan-dbg", tiers=["thorough"], args=["--slots", "3"],
+         deadline={"thorough": 600}, env=_ENV),
 ]
 ASSUMPTIONS = [
     "sequential half only: every call history on one thread (thread interleavings are the concurrent half of C17)",
-    "slots p0..p2 (thorough p0..p3); sizes 1, 8, 600; calloc shapes 1x1, 2x4, 3x200; realloc targets 0, 1, 8, 600",
+    "slots p0..p2 (thorough p0..p3); sizes 1, 8, 600; calloc shapes 1x1, 2x4, 3x200; realloc targets 0, 1, 8, 600; "
+    "24 configurations = level {NONE, BYTES, STACKS/1, STACKS/8} x parent realloc {none, in place when the rounded size is unchanged, always moves} x parent calloc {no, yes}",
+    "every configuration is explored to a fixpoint (histories of every length over this alphabet); states are de-duplicated on a "
+    "128-bit hash of the canonical state",
+    "canonical state abstracts block addresses to roles (block of slot k / j-th entry of a size class's free list); the numeric "
+    "address matters to the tracer only through the home bucket of its 2048-bucket table, covered by the probe-displacement field "
+    "(counter tracer_table_displaced_entries: no collision ever occurred)",
+    "the tracer's bookkeeping lives on aws_default_allocator(); leaks of bookkeeping records are outside the property and not checked",
+    "the tracer is destroyed with allocations outstanding (odd number live) or after releasing everything through it (even); both are taken as legal uses",
+    "a counting null logger at TRACE level is installed so that aws_mem_tracer_dump does all its work; what it prints is not checked",
 ]
